@@ -220,3 +220,143 @@ func (g *treeGen) travStack(depth int) Node {
 	n["e"] = kids
 	return n
 }
+
+// ---- structural projection of real values (Shape of spec/Trees.tla) ----------
+
+func opID(op stackage.Operator) string {
+	if op == nil {
+		return "none"
+	}
+	switch op.String() {
+	case "=":
+		return "Eq"
+	case "!=":
+		return "Ne"
+	case "<":
+		return "Lt"
+	case ">":
+		return "Gt"
+	case "<=":
+		return "Le"
+	case ">=":
+		return "Ge"
+	case "~=":
+		return "user"
+	}
+	return "op:" + op.String()
+}
+
+func leafTokens(x any) []string {
+	switch tv := x.(type) {
+	case string:
+		return Tokenize(tv)
+	case int:
+		return Tokenize(strconv.Itoa(tv))
+	case bool:
+		return Tokenize(strconv.FormatBool(tv))
+	case float64:
+		return Tokenize(strconv.FormatFloat(tv, 'g', -1, 64))
+	}
+	return []string{fmt.Sprintf("?%T", x)}
+}
+
+// ProjectShape maps a real value back to the Shape record of the spec.
+func ProjectShape(x any) Node {
+	if x == nil {
+		return Node{"t": "nil"}
+	}
+	if s, ok := stackage.ConvertStack(x); ok {
+		d := stackage.VerifDump(s)
+		kids := []any{}
+		if sl, ok := d["slots"].([]any); ok {
+			for _, e := range sl {
+				kids = append(kids, ProjectShape(e))
+			}
+		}
+		k := strings.ToUpper(fmt.Sprint(func() string {
+			cfg, _ := d["cfg"].(map[string]any)
+			switch cfg["typ"] {
+			case 1:
+				return "AND"
+			case 2:
+				return "OR"
+			case 3:
+				return "NOT"
+			case 4:
+				return "LIST"
+			case 6:
+				return "BASIC"
+			}
+			return "?"
+		}()))
+		return Node{"t": "stk", "k": k, "paren": s.IsParen(), "e": kids}
+	}
+	if c, ok := stackage.ConvertCondition(x); ok {
+		return Node{"t": "cnd", "kw": Tokenize(c.Keyword()), "op": opID(c.Operator()), "ex": ProjectShape(c.Expression())}
+	}
+	return Node{"t": "leaf", "v": leafTokens(x)}
+}
+
+func argInt(arg any) int {
+	switch tv := arg.(type) {
+	case float64:
+		return int(tv)
+	case int:
+		return tv
+	}
+	return 0
+}
+
+func init() {
+	evaluators["defrag"] = func(in Node, arg any) any {
+		root, _ := stackage.ConvertStack(BuildNode(in))
+		if m := argInt(arg); m <= 0 {
+			root.Defrag()
+		} else {
+			root.Defrag(m)
+		}
+		err := "none"
+		if root.Err() != nil {
+			err = "set"
+		}
+		return map[string]any{"shape": ProjectShape(root), "err": err}
+	}
+	treeGenerators["defrag"] = func(g *treeGen) (Node, any) {
+		lim := []int{0, 0, 1, 2, 3, 5, 8}[g.rng.Intn(7)]
+		pat := func() Node {
+			n := g.rng.Intn(20)
+			es := []any{}
+			run := 0
+			for i := 0; i < n; i++ {
+				maxrun := 50
+				if lim > 0 {
+					maxrun = lim
+				}
+				if g.rng.Intn(3) == 0 && run+1 < maxrun {
+					es = append(es, Node{"t": "nil"})
+					run++
+				} else {
+					es = append(es, Node{"t": "leaf", "ty": "str", "v": []any{"e", fmt.Sprint(i % 10)}})
+					run = 0
+				}
+			}
+			return Node{"t": "stk", "k": []string{"AND", "OR", "LIST", "BASIC"}[g.rng.Intn(4)], "form": g.form(), "paren": false, "fold": false,
+				"nspad": false, "lonce": false, "sym": []any{}, "delim": []any{}, "enc": []any{}, "neg": g.rng.Intn(2) == 0, "fwd": g.rng.Intn(3) == 0,
+				"mtx": false, "cap": 0, "e": es}
+		}
+		root := pat()
+		root["form"] = "native"
+		kids := root["e"].([]any)
+		// sprinkle nested pattern stacks and conditions holding them
+		for i := range kids {
+			if k, _ := kids[i].(Node); k != nil && k["t"] == "leaf" && g.rng.Intn(6) == 0 {
+				if g.rng.Intn(2) == 0 {
+					kids[i] = pat()
+				} else {
+					kids[i] = Node{"t": "cnd", "form": g.form(), "kw": []any{"k"}, "op": "Eq", "ex": pat(), "paren": false, "nspad": false, "enc": []any{}}
+				}
+			}
+		}
+		return root, lim
+	}
+}
